@@ -145,18 +145,18 @@ static void run_case(vr::Runner &R, const Cfg &cfg, const vg::EdgeList &el, cons
         for (int var : cfg.variants) {
             R.crumb(unit, sub, ki * 10 + var);
             vv::CycleList<W> cycles;
-            W ret = W(); std::string exc; bool runtime_error = false;
+            W ret = W(); std::string exc; bool threw = false;
             try { ret = vv::run_approx<W>(var, b, (std::size_t) k, cycles); }
-            catch (std::runtime_error &e) { exc = std::string("runtime_error: ") + e.what(); runtime_error = true; }
-            catch (std::exception &e) { exc = std::string("exception: ") + e.what(); }
-            catch (...) { exc = "unknown exception (non-std type)"; }
+            catch (std::exception &e) { exc = std::string("exception: ") + e.what(); threw = true; }
+            catch (...) { exc = "exception of a non-std type"; threw = true; }
             R.crumb_done();
             R.count(C_EVAL);
             std::string cs = cs_of(el, w, var, k);
             const char *site = vv::approx_name(var);
             if (k == 0) {
                 if (cfg.c06) {
-                    if (!runtime_error) R.violation({site, "k0-not-rejected", cs, exc.empty() ? "k=0 accepted (returned " + vg::fmt_w(ret) + ")" : "k=0 rejected with the wrong kind of exception: " + exc});
+                    // the property asks for "an exception"; its type is not part of the contract
+                    if (!threw) R.violation({site, "k0-not-rejected", cs, "k=0 accepted (returned " + vg::fmt_w(ret) + ")"});
                     else if (!cycles.empty()) R.violation({site, "k0-emitted", cs, "k=0 threw but had already emitted " + std::to_string(cycles.size()) + " cycles"});
                 }
                 continue;
@@ -233,7 +233,7 @@ int main(int argc, char **argv) {
         vg::EdgeList el = unit_graph(u);
         int dim = vg::cycle_space_dim(el);
         std::vector<uint64_t> cyc; if (el.m() <= 62) cyc = vg::all_simple_cycles(el);
-        uint64_t nw = vg::ipow(alpha.size(), el.m());
+        uint64_t nw = vg::num_weightings(alpha, el.m());
         std::vector<double> w; vg::weighting(alpha, el.m(), 0, w);
         B b(el, w);
         for (uint64_t s = start_sub; s < nw; ++s) {
@@ -249,7 +249,7 @@ int main(int argc, char **argv) {
     for (uint64_t u : {total_units / 2, total_units - 1, total_units / 3}) {
         if (u >= total_units) continue;
         vg::EdgeList el = unit_graph(u);
-        uint64_t nw = vg::ipow(alpha.size(), el.m());
+        uint64_t nw = vg::num_weightings(alpha, el.m());
         samples.push_back(describe(u, nw / 2, (cfg.ks.size() - 1) * 10 + cfg.variants[0]).second);
     }
     uint64_t evals = R.counter(C_EVAL) + R.counter(C_SPANNER_EVAL);
